@@ -11,7 +11,9 @@ import (
 	"math"
 	"os"
 	"reflect"
+	"runtime"
 	"strconv"
+	"strings"
 	"sync"
 	"time"
 )
@@ -30,6 +32,7 @@ type verifWitness struct {
 	Choices map[string]int       ` + "`json:\"choices\"`" + `
 	JSON    map[string]string    ` + "`json:\"json\"`" + `
 	Preempts []verifPreempt      ` + "`json:\"preempts\"`" + `
+	Order    []string            ` + "`json:\"order\"`" + `
 }
 type verifPreempt struct {
 	Site string ` + "`json:\"site\"`" + `
@@ -61,8 +64,16 @@ var (
 )
 
 // verifSP is called by the instrumented copy of the library (sched confirmation binary only) before every
-// synchronisation operation: the goroutine whose operation the engine preempted is held here for a while,
-// so that the other goroutines run first, as in the schedule the engine found.
+// synchronisation operation. When the witness carries the order in which the engine executed these
+// operations (site#occurrence), each operation waits until its predecessors in that order have been
+// released (giving up after 150 ms, in case the native run does not reach one of them); otherwise the
+// goroutine whose operation the engine preempted is simply held for a while.
+var (
+	verifOrdIdx  map[string]int
+	verifOrdNext int
+	verifOrdCond *sync.Cond
+)
+
 func verifSP(site string) {
 	verifMu.Lock()
 	if verifSPCnt == nil {
@@ -70,6 +81,41 @@ func verifSP(site string) {
 	}
 	verifSPCnt[site]++
 	n := verifSPCnt[site]
+	if verifOrdCond == nil {
+		verifOrdCond = sync.NewCond(&verifMu)
+	}
+	if verifCur != nil && len(verifCur.Order) > 0 {
+		if verifOrdIdx == nil {
+			verifOrdIdx = map[string]int{}
+			for i, k := range verifCur.Order {
+				verifOrdIdx[k] = i
+			}
+		}
+		idx, ok := verifOrdIdx[site+"#"+strconv.Itoa(n)]
+		if !ok || idx < verifOrdNext {
+			verifMu.Unlock()
+			return
+		}
+		deadline := time.Now().Add(150 * time.Millisecond)
+		for verifOrdNext < idx && time.Now().Before(deadline) {
+			// wake up periodically: sync.Cond has no timed wait
+			go func() {
+				time.Sleep(5 * time.Millisecond)
+				verifMu.Lock()
+				verifOrdCond.Broadcast()
+				verifMu.Unlock()
+			}()
+			verifOrdCond.Wait()
+		}
+		if verifOrdNext < idx+1 {
+			verifOrdNext = idx + 1
+		}
+		verifOrdCond.Broadcast()
+		verifMu.Unlock()
+		// let the operation that was just released take effect before its successor is released
+		time.Sleep(time.Millisecond)
+		return
+	}
 	hold := false
 	if verifCur != nil {
 		for _, p := range verifCur.Preempts {
@@ -183,6 +229,22 @@ func vJSONNoExtra(on bool)            {}
 func vUsedCryptoRand() bool           { return true }
 func vEnvCalls() int                  { return -1 }
 func vEnvCallArg(i int) time.Duration { return -1 }
+// vGoroutines: goroutines running library code (a frame of this module that is not harness code),
+// the calling goroutine excluded.
+func vGoroutines() int {
+	buf := make([]byte, 1<<20)
+	buf = buf[:runtime.Stack(buf, true)]
+	n := 0
+	for i, g := range strings.Split(string(buf), "\n\n") {
+		if i == 0 {
+			continue // the caller
+		}
+		if strings.Contains(g, "trpc-mcp-go") && !strings.Contains(g, "verifRunOne") && !strings.Contains(g, "verifRunReplay") && !strings.Contains(g, "testing.") {
+			n++
+		}
+	}
+	return n
+}
 func vTier() int {
 	if os.Getenv("VERIF_TIER") == "thorough" {
 		return 1
@@ -216,6 +278,8 @@ func verifRunOne(fn func(), w *verifWitness) (run verifRun) {
 	verifOcc = map[string]int{}
 	verifTrace = nil
 	verifSPCnt = map[string]int{}
+	verifOrdIdx = nil
+	verifOrdNext = 0
 	verifMu.Unlock()
 	done := make(chan string, 1)
 	go func() {
